@@ -164,7 +164,7 @@ theorem method_split (q : Req) (e : MKey × I.M) :
 
 theorem method_onlyPart_eq (m : List (MKey × I.M)) (hn : (akeys m).Nodup) (q : Req) :
     m.flatMap (Method.onlyPart I q) =
-      (match alookup (MKey.only q.methodStr) m with | some b => I.matchReq b q | none => []) := by
+      ((alookup (MKey.only q.methodStr) m).map (fun b => I.matchReq b q)).getD [] := by
   rw [← flatMap_select m hn (MKey.only q.methodStr) (fun b => I.matchReq b q)]
   congr 1; funext e
   unfold Method.onlyPart
@@ -182,15 +182,12 @@ theorem method_match_perm (s : LState I MKey) (hn : (akeys s.map).Nodup) (q : Re
     unfold lMatchMap; congr 1; funext e; exact method_split q e
   have h2 : Method.matchReq I s q =
       I.matchReq s.any q ++ (s.map.flatMap (Method.onlyPart I q) ++ s.map.flatMap (Method.exclPart I q)) := by
-    unfold Method.matchReq
     rw [method_onlyPart_eq s.map hn q]
-    simp only
-    have : (fun e : MKey × I.M =>
-        match e.1 with
-        | .exclude ms => if (!ms.contains q.methodStr) = true then I.matchReq e.2 q else []
-        | .only _ => []) = Method.exclPart I q := by
-      funext e; unfold Method.exclPart; rfl
-    rw [this]
+    have hx : Method.matchReq I s q =
+        (match alookup (MKey.only q.methodStr) s.map with
+          | some b => I.matchReq s.any q ++ I.matchReq b q
+          | none => I.matchReq s.any q) ++ s.map.flatMap (Method.exclPart I q) := rfl
+    rw [hx]
     cases alookup (MKey.only q.methodStr) s.map <;> simp
   rw [h1, h2]
   exact List.Perm.append_left _ (flatMap_append_perm' _ _ _).symm
@@ -237,7 +234,7 @@ theorem method_mem_trace (s : LState I MKey) (L : List Route)
         · simp only [hc, Bool.not_false, if_true] at ht
           subst ht
           simp only [Trace.routes_mk, TInfo.routes, List.nil_append] at hr
-          exact ⟨by simp [Method.accepts, hc], hr⟩
+          exact ⟨by simp only [Method.accepts, hc]; rfl, hr⟩
         · simp only [hc, Bool.not_true, Bool.false_eq_true, if_false] at ht
           subst ht
           simp [Trace.routes_mk, TInfo.routes] at hr
@@ -254,7 +251,7 @@ theorem method_mem_trace (s : LState I MKey) (L : List Route)
         · simp only [hc, if_true] at ht
           subst ht
           simp only [Trace.routes_mk, TInfo.routes, List.nil_append] at hr
-          exact ⟨by simp [Method.accepts, hc], hr⟩
+          exact ⟨by simp only [Method.accepts, hc], hr⟩
     · exact hf.elim
   · rintro (hr | ⟨e, he, ha, hr⟩)
     · exact Or.inl (Or.inl (Or.inl hr))
@@ -284,5 +281,213 @@ def methodLaws : MLaws (methodOps I) :=
       rw [(method_match_perm s h.nodup q).nodup_iff]
       exact nodup_lMatch IL Method.keysOf Method.accepts method_singleAccept s L h hU q)
     (fun s L q r h hU => method_mem_trace IL s L h hU q r)
+
+/-! ## IpMatcher: the bucket union with the report-once guard -/
+
+theorem pushNew_nil (acc : List Route) : pushNew acc [] = acc := rfl
+
+theorem pushNew_cons (acc : List Route) (r : Route) (new : List Route) :
+    pushNew acc (r :: new) =
+      pushNew (if acc.any (fun x => x.id == r.id) then acc else acc ++ [r]) new := rfl
+
+theorem pushNew_mem (L : List Route) (hU : UIds L) (new : List Route) (x : Route) :
+    ∀ acc, (∀ y ∈ acc, y ∈ L) → (∀ y ∈ new, y ∈ L) →
+      (x ∈ pushNew acc new ↔ x ∈ acc ∨ x ∈ new) := by
+  induction new with
+  | nil => intro acc _ _; simp [pushNew_nil]
+  | cons r new ih =>
+    intro acc hacc hnew
+    rw [pushNew_cons]
+    have hr : r ∈ L := hnew r (List.mem_cons_self ..)
+    have hnew' : ∀ y ∈ new, y ∈ L := fun y hy => hnew y (List.mem_cons_of_mem _ hy)
+    by_cases hany : acc.any (fun y => y.id == r.id) = true
+    · simp only [hany, if_true]
+      rw [ih acc hacc hnew']
+      have hin : r ∈ acc := by
+        rw [List.any_eq_true] at hany
+        obtain ⟨y, hy, hid⟩ := hany
+        have : y = r := hU y (hacc y hy) r hr (by simpa using hid)
+        exact this ▸ hy
+      constructor
+      · rintro (h | h)
+        · exact Or.inl h
+        · exact Or.inr (List.mem_cons_of_mem _ h)
+      · rintro (h | h)
+        · exact Or.inl h
+        · rcases List.mem_cons.mp h with h | h
+          · exact Or.inl (h ▸ hin)
+          · exact Or.inr h
+    · simp only [hany, if_false, Bool.false_eq_true]
+      rw [ih (acc ++ [r]) (by
+        intro y hy
+        rcases List.mem_append.mp hy with hy | hy
+        · exact hacc y hy
+        · simp at hy; exact hy ▸ hr) hnew']
+      simp only [List.mem_append, List.mem_singleton, List.mem_cons, List.not_mem_nil, or_false]
+      constructor
+      · rintro ((h | h) | h)
+        · exact Or.inl h
+        · exact Or.inr (Or.inl h)
+        · exact Or.inr (Or.inr h)
+      · rintro (h | h | h)
+        · exact Or.inl (Or.inl h)
+        · exact Or.inl (Or.inr h)
+        · exact Or.inr h
+
+theorem pushNew_nodupIds (new : List Route) :
+    ∀ acc, (acc.map (·.id)).Nodup → ((pushNew acc new).map (·.id)).Nodup := by
+  induction new with
+  | nil => intro acc h; exact h
+  | cons r new ih =>
+    intro acc h
+    rw [pushNew_cons]
+    by_cases hany : acc.any (fun y => y.id == r.id) = true
+    · simp only [hany, if_true]; exact ih acc h
+    · simp only [hany, if_false, Bool.false_eq_true]
+      apply ih
+      rw [List.map_append, List.nodup_append]
+      refine ⟨h, by simp, ?_⟩
+      intro a ha b hb hab
+      simp only [List.map_cons, List.map_nil, List.mem_singleton] at hb
+      subst hab
+      apply hany
+      rw [List.any_eq_true]
+      obtain ⟨y, hy, hid⟩ := List.mem_map.mp ha
+      exact ⟨y, hy, by simp [hid, hb]⟩
+
+/-- the loop of `IpMatcher::match_request` over the buckets -/
+def Ip.loop (I : MOps) (a : Ip) (q : Req) (m : List (RouteIp × I.M)) (routes : List Route) : List Route :=
+  m.foldl (fun acc e => if e.1.matchIp a then pushNew acc (I.matchReq e.2 q) else acc) routes
+
+theorem ip_loop_spec (L : List Route) (hU : UIds L) (a : Ip) (q : Req) (m : List (RouteIp × I.M))
+    (hm : ∀ e ∈ m, ∀ y ∈ I.matchReq e.2 q, y ∈ L) :
+    ∀ acc, (∀ y ∈ acc, y ∈ L) → (acc.map (·.id)).Nodup →
+      (∀ y ∈ Ip.loop I a q m acc, y ∈ L) ∧ ((Ip.loop I a q m acc).map (·.id)).Nodup ∧
+      ∀ x, x ∈ Ip.loop I a q m acc ↔
+        x ∈ acc ∨ ∃ e ∈ m, e.1.matchIp a = true ∧ x ∈ I.matchReq e.2 q := by
+  induction m with
+  | nil => intro acc h1 h2; exact ⟨h1, h2, by simp [Ip.loop]⟩
+  | cons e m ih =>
+    intro acc h1 h2
+    have hm' : ∀ e' ∈ m, ∀ y ∈ I.matchReq e'.2 q, y ∈ L :=
+      fun e' he' => hm e' (List.mem_cons_of_mem _ he')
+    have he := hm e (List.mem_cons_self ..)
+    simp only [Ip.loop, List.foldl_cons]
+    by_cases ha : e.1.matchIp a = true
+    · simp only [ha, if_true]
+      have hmem := fun x => pushNew_mem L hU (I.matchReq e.2 q) x acc h1 he
+      have step := ih hm' (pushNew acc (I.matchReq e.2 q))
+        (by
+          intro y hy
+          rcases (hmem y).1 hy with hy | hy
+          · exact h1 y hy
+          · exact he y hy)
+        (pushNew_nodupIds _ _ h2)
+      refine ⟨step.1, step.2.1, ?_⟩
+      intro x
+      have := step.2.2 x
+      simp only [Ip.loop] at this
+      rw [this, hmem x]
+      simp only [List.mem_cons, exists_eq_or_imp, ha, true_and]
+      constructor
+      · rintro ((h | h) | h)
+        · exact Or.inl h
+        · exact Or.inr (Or.inl h)
+        · exact Or.inr (Or.inr h)
+      · rintro (h | h | h)
+        · exact Or.inl (Or.inl h)
+        · exact Or.inl (Or.inr h)
+        · exact Or.inr h
+    · simp only [ha, if_false, Bool.false_eq_true]
+      have step := ih hm' acc h1 h2
+      refine ⟨step.1, step.2.1, ?_⟩
+      intro x
+      have := step.2.2 x
+      simp only [Ip.loop] at this
+      rw [this]
+      simp only [List.mem_cons, exists_eq_or_imp, ha, false_and, false_or, Bool.false_eq_true]
+
+theorem ip_match_unfold (s : LState I RouteIp) (q : Req) :
+    Ip.matchReq I s q =
+      match q.ip with
+      | none => I.matchReq s.any q
+      | some a => Ip.loop I a q s.map (I.matchReq s.any q) := rfl
+
+theorem ip_spec (s : LState I RouteIp) (L : List Route) (h : LRepr IL Ip.keysOf s L) (hU : UIds L)
+    (q : Req) :
+    (Ip.matchReq I s q).Nodup ∧
+    ∀ r, r ∈ Ip.matchReq I s q ↔ (r ∈ I.matchReq s.any q ∨ r ∈ lMatchMap I Ip.accepts s.map q) := by
+  have hanyL : ∀ y ∈ I.matchReq s.any q, y ∈ L := by
+    intro y hy
+    exact ((mem_matchAny IL Ip.keysOf s L h hU q y).1 hy).1
+  have hanyN := IL.nodup_match _ _ q h.any (hU.filter _)
+  rw [ip_match_unfold]
+  cases hq : q.ip with
+  | none =>
+    refine ⟨hanyN, ?_⟩
+    intro r
+    have : lMatchMap I Ip.accepts s.map q = [] := by
+      unfold lMatchMap Ip.accepts
+      simp [hq]
+    simp [this]
+  | some a =>
+    simp only
+    have hm : ∀ e ∈ s.map, ∀ y ∈ I.matchReq e.2 q, y ∈ L := by
+      intro e he y hy
+      have hl := alookup_of_mem h.nodup (show (e.1, e.2) ∈ s.map from he)
+      rw [IL.mem_match _ _ q y (h.some e.1 e.2 hl) (hU.filter _), List.mem_filter] at hy
+      exact hy.1.1
+    have sp := ip_loop_spec L hU a q s.map hm (I.matchReq s.any q) hanyL
+      ((hU.mono hanyL).nodup_ids hanyN)
+    refine ⟨List.Nodup.of_map _ sp.2.1, ?_⟩
+    intro r
+    rw [sp.2.2 r]
+    have : r ∈ lMatchMap I Ip.accepts s.map q ↔
+        ∃ e ∈ s.map, e.1.matchIp a = true ∧ r ∈ I.matchReq e.2 q := by
+      unfold lMatchMap Ip.accepts
+      simp only [hq, List.mem_flatMap]
+      constructor
+      · rintro ⟨e, he, hr⟩
+        by_cases hc : e.1.matchIp a = true
+        · simp only [hc, if_true] at hr; exact ⟨e, he, hc, hr⟩
+        · simp [hc] at hr
+      · rintro ⟨e, he, hc, hr⟩
+        exact ⟨e, he, by simp [hc, hr]⟩
+    rw [this]
+
+theorem ip_mem_trace (s : LState I RouteIp) (L : List Route)
+    (h : LRepr IL Ip.keysOf s L) (hU : UIds L) (q : Req) (r : Route) :
+    r ∈ routesOfList (Ip.trace I s q) ↔ r ∈ Ip.matchReq I s q := by
+  rw [(ip_spec IL s L h hU q).2 r,
+    ← mem_trace_buckets IL Ip.keysOf Ip.accepts s L h hU q r,
+    ← mem_any_trace IL Ip.keysOf s L h hU q r]
+  unfold Ip.trace Ip.accepts
+  cases hq : q.ip with
+  | none => simp
+  | some a =>
+    simp only [routesOfList_append, List.mem_append, mem_routesOfList_map]
+    constructor
+    · rintro (hr | ⟨e, he, hr⟩)
+      · exact Or.inl hr
+      · right
+        by_cases hc : e.1.matchIp a = true
+        · simp only [hc, if_true, Trace.routes_mk, TInfo.routes, List.nil_append] at hr
+          exact ⟨e, he, hc, hr⟩
+        · simp [hc, Trace.routes_mk, TInfo.routes] at hr
+    · rintro (hr | ⟨e, he, hc, hr⟩)
+      · exact Or.inl hr
+      · right
+        exact ⟨e, he, by simp only [hc, if_true, Trace.routes_mk, TInfo.routes, List.nil_append]; exact hr⟩
+
+def ipLaws : MLaws (ipOps I) :=
+  outerLaws IL Ip.keysOf (Ip.matchReq I) (Ip.trace I)
+    (lSat IL Ip.keysOf Ip.accepts)
+    (fun L L' r q h => lSat_congr IL Ip.keysOf Ip.accepts L L' r q h)
+    (by
+      intro s L q r h hU
+      rw [(ip_spec IL s L h hU q).2 r]
+      exact mem_lMatch IL Ip.keysOf Ip.accepts s L h hU q r)
+    (fun s L q h hU => (ip_spec IL s L h hU q).1)
+    (fun s L q r h hU => ip_mem_trace IL s L h hU q r)
 
 end Rio.Router
